@@ -221,6 +221,21 @@ def run_type(res, T, spec_, rng, sentinels):
         B3 = cls()
         alias_scan(res, A3, B3, f"{T}:generated-vs-fresh", desc)
         differential(res, api.Synth(A3), api.Synth(B3), "generated-vs-fresh", T, rng, spec_["edits"] // 2, desc)
+        # --- B is a pickle round trip of A (how applications pass objects to worker processes / keep undo states)
+        import pickle
+        try:
+            A6 = make_module(seed, idx + 1300, tier, T)
+            B6 = pickle.loads(pickle.dumps(A6, rnd % (pickle.HIGHEST_PROTOCOL + 1)))
+            res.count("pickled_copies")
+        except Exception as e:
+            res.count("pickle_unusable")
+            res.hist("pickle_unusable_why", f"{T}:{type(e).__name__}")
+        else:
+            alias_scan(res, A6, B6, f"{T}:pickle", desc)
+            if rnd % 2:
+                differential(res, api.Synth(A6), api.Synth(B6), "pickle", T, rng, spec_["edits"] // 2, desc)
+            else:
+                differential(res, api.Synth(B6), api.Synth(A6), "pickle-reverse", T, rng, spec_["edits"] // 2, desc)
         # --- copy.deepcopy of a module that is wired into a project (a MultiCtl drives its neighbours; a module inside a
         #     constructed MetaModule is exposed through it): the copy is edited, the project it was copied out of stays as it is;
         #     then the other way round
